@@ -304,6 +304,9 @@ def shared_rule(cat, rep, rule='R17.7'):
             try:
                 twin = ip.instantiate(fr.cls, [], {'instance': fr.instance if fr.instance is not None else '1', 'solver': SolverTok()}, fr.cls.node, _root_scope(ip, fr.cls.rel))
             except InterpAbort as e:
+                if e.kind.startswith(('unmodelled', 'undecided')):
+                    rep.error(f'{y}/{fr.name}: the second copy could not be evaluated ({e.kind}: {e.msg}); object sharing between copies is not decided')
+                    continue
                 rep.ob(rule, f'{y}/{fr.name}/second-copy-can-be-built', False,
                        f'{fr.cls.name}(instance={fr.instance!r}) can be built once but not a second time in the same process ({e.kind}: {e.msg}): building a copy changes something '
                        'shared by the class (for instance the list of allowed instances), so solve followed by fill-pdfs, or a second return, fails', fr.where)
